@@ -77,7 +77,7 @@ def pcOk (N : Nat) : Pc → Prop
   | .try _ cur r m => m = mr N r ∧ (1 < m → cur ≤ (m + 1) / 2)
   | .try2 _ cur r m => m = mr N r ∧ 1 < m ∧ cur < (m + 1) / 2
   | .won _ r | .pub _ r => mr N r ≤ 1
-  | .arr u => 1 ≤ u
+  | .arr u | .want u => 1 ≤ u
   | _ => True
 
 structure InvB (s : St) : Prop where
